@@ -229,6 +229,10 @@ def pquantity? (s : String) : Option Quantity :=
     let k ← kind? k
     let l ← logly? l
     pure { name := n, kind := k, logly := l, attrs := attrs? a }
+  | [n, k, l, a, dsc] => do      -- with the description (blanks sent as `^`)
+    let k ← kind? k
+    let l ← logly? l
+    pure { name := n, kind := k, logly := l, attrs := attrs? a, desc := dsc.replace "^" " " }
   | _ => none
 
 def showKind : QKind → String
@@ -270,7 +274,7 @@ def portLine (ws : List String) : String :=
                            defaultStd := if fl.linear then 1 else 1 / 100 }
       match IrisVerif.Portable.fromPortable (fun _ e => e) tol (IrisVerif.Portable.toPortable d vs) with
       | .ok (d', vs') =>
-        "ok " ++ ",".intercalate (d'.quantities.map (fun q => q.name ++ "~" ++ showKind q.kind ++ "~" ++ showLogly q.logly))
+        "ok wf=" ++ showBool (IrisVerif.Portable.portableWFb d vs) ++ " " ++ ",".intercalate (d'.quantities.map (fun q => q.name ++ "~" ++ showKind q.kind ++ "~" ++ showLogly q.logly))
           ++ " " ++ "@".intercalate (d'.equations.map (fun e => showEKind e.kind ++ ";" ++ e.dynamic ++ ";" ++ e.steady))
           ++ " " ++ showBool d'.flags.linear ++ showBool d'.flags.flat ++ showBool d'.flags.deterministic
           ++ " " ++ "@".intercalate (vs'.map (fun v => showVals v.1 ++ ";" ++ showVals v.2))
